@@ -96,6 +96,28 @@ def correspond(ctx, scale=1):
         sigs.add(("segs", impl.count("|") > 1, c[1] > (1 << 64) - (1 << 40)))
         if impl != m.strip():
             mm.append({"key": "segments", "what": "segments of Erat(start=%d, stop=%d, %d KiB): implementation %s ; model %s" % (c[0], c[1], c[2], impl[:200], m.strip()[:200]), "failing_input": None})
+    # cross-off unit level: the real EratSmall::crossOff for one sieving prime on an all-ones sieve (state from the real
+    # addSievingPrime) vs the model's cross loop over the extracted step table (the loop the kernel theorem is about)
+    xo = []
+    for _ in range(150 * scale):
+        pr_ = oracle.next_prime_ge(rng.choice([7, 11, 13, 17, 19, 23, 29, 31, 37, 100, 1000, 5000, 30000]) + rng.below(40))
+        # the first multiple must lie within reach (SievingPrime packs multipleIndex into 23 bits; EratSmall only holds
+        # primes whose next multiple is at most a few segments away): base within 3 segments below p^2, or anywhere above it
+        low = 30 * (max(0, pr_ * pr_ - 30 * rng.below(3 * 20000)) // 30) if rng.chance(1, 2) else 30 * (pr_ * pr_ // 30 + rng.below(10 ** 9))
+        l1 = rng.choice([64, 100, 1000, 16384, 32768])
+        size = rng.between(1, 8) if rng.chance(1, 10) else rng.between(10, 20000)
+        xo.append((pr_, low, l1, size))
+    rc, o, e = ps.run([kp], input="".join("ASP30 %d %d %d\n" % ((1 << 64) - 1, c[0], c[1]) for c in xo), timeout=300)
+    st = [l.split() for l in o.splitlines()]
+    xq = [(c, s_) for c, s_ in zip(xo, st) if len(s_) == 2 and int(s_[0]) < (1 << 23) - 1]
+    rc, o, e = ps.run([kp], input="".join("XOFF %d %d %d %s %s\n" % (c[3], c[2], c[0], s_[0], s_[1]) for c, s_ in xq), timeout=600)
+    rcm, om, em = ps.run([model], input="".join("LEAF xoff %d %d %d %s %s\n" % (c[3], c[2], c[0], s_[0], s_[1]) for c, s_ in xq), timeout=900)
+    dist["cross_off_units"] = len(xq)
+    for (c, s_), a_, b_ in zip(xq, o.splitlines(), om.splitlines()):
+        ev += 1
+        sigs.add(("xoff", c[0] % 30, a_.startswith("|"), c[3] > c[2]))
+        if a_.strip() != b_.strip():
+            mm.append({"key": "cross-off", "what": "EratSmall::crossOff(prime %d, segment base %d, %d bytes, L1 %d, state %s): implementation changes %s..., model %s..." % (c[0], c[1], c[3], c[2], s_, a_[:120], b_[:120]), "failing_input": None})
     mm.sort(key=lambda m_: 0 if m_.get("failing_input") else 1)
     return {"evaluations": ev, "distinct_nontrivial": len(sigs),
             "rule": "intervals aimed at segment seams (geometry queried from the real Erat::init for sieve sizes %s), stops on/just past a seam, p*q on the last bit of a segment, byte/bit edges, start <= 5 < stop, stop = p*q, empty and one-byte intervals, all 0 <= a <= b < 40; threads 1/2/4/16. distinct = distinct (build, reason, sieve size, start mod 30, stop mod 30)" % countlib.SIEVE_SIZES,
